@@ -125,6 +125,37 @@ def expect_refuted(module, cfg, invariant, **kw):
     return r
 
 
+def prove(theorems=None, timeout=600):
+    """Run the TLA+ proof system on spec/proofs/Proofs.tla; returns dict(obligations, discharged, wall).
+    The operator definitions copied into Proofs.tla must be textually identical to those of the specification modules."""
+    pdir = os.path.join(SPEC_DIR, "proofs")
+    src = open(os.path.join(pdir, "Proofs.tla")).read()
+    norm = lambda t: re.sub(r"\s+", " ", t).strip()
+    for mod, names in (("Tracker", ["Reflect"]), ("Tableau", ["Fam2B1", "Fam2B2"]), ("OutFile", ["CeilDiv"])):
+        msrc = norm(open(os.path.join(SPEC_DIR, mod + ".tla")).read())
+        for nm in names:
+            m = re.search(r"^" + nm + r"\(.*?(?=^\S)", src, re.M | re.S)
+            if not m or norm(m.group(0)) not in msrc:
+                raise MachineryError(f"Proofs.tla: definition of {nm} differs from {mod}.tla")
+    work = scratch("lv_tlaps_")
+    t0 = time.time()
+    try:
+        shutil.copy(os.path.join(pdir, "Proofs.tla"), work)
+        p = subprocess.run(["tlapm", "--cleanfp", "Proofs.tla"], cwd=work, capture_output=True, text=True, timeout=timeout)
+        out = p.stdout + p.stderr
+    except subprocess.TimeoutExpired:
+        raise MachineryError("tlapm timed out")
+    finally:
+        shutil.rmtree(work, ignore_errors=True)
+    m = re.search(r"All (\d+) obligations? proved", out)
+    if not m:
+        f = re.search(r"(\d+)/(\d+) obligations? failed", out)
+        raise MachineryError("tlapm: " + (f.group(0) if f else out[-400:]))
+    n = int(m.group(1))
+    return dict(checker="tlapm --cleanfp spec/proofs/Proofs.tla", obligations=n, discharged=n, wall_s=round(time.time() - t0, 2),
+                theorems=["InColumnAll", "WeightsConvexAll", "ClockInverseAll", "FamilyOrder2All", "ColdRecordsInWindow"])
+
+
 # ------------------------------------------------------------------------------------------------
 # batched trace validation
 # ------------------------------------------------------------------------------------------------
